@@ -302,8 +302,7 @@ def unmarshal (recv : V) (data : Slice) : R V :=
     let (rsv, old) := match recv with
       | .obj _ [_, _, _, _, r, _, _, _, _, .list o] => (r, o)
       | _ => (.num 0, [])
-    let l := Gen.protocol.IGMPv3Query.Len { NumberOfSources := ns }
-    if data.len < l.toNat then .err else do
+    if data.len < 12 + ns.toNat * 4 then .err else do
       let ips ← pReadIPs data 12 ns.toNat
       pure (.obj "p.IGMPv3Query" [V.u8 ty, V.u8 mrt, V.u16 cs, .bytes (makeCopy 4 g.bytes), rsv, V.bool (unpackS b8),
         V.u8 (unpackQRV b8), V.u8 it, V.u16 ns, .list (old ++ ips)])
@@ -316,6 +315,10 @@ def len : V → R UInt16
     .ok (Gen.protocol.IGMPv3GroupRecord.Len { Type_ := n8 ty, AuxDataLen := n8 aux, NumberOfSources := n16 ns })
   | _ => .panic
 def lenM (v : V) : R (UInt16 × V) := do let l ← len v; same l v
+/-- the record size computed in `int` (no 16-bit wrap-around) -/
+def trueSize : V → R Nat
+  | .obj "p.IGMPv3GroupRecord" [_, .num aux, .num ns, _, _, _] => .ok (8 + (n8 aux).toNat * 4 + (n16 ns).toNat * 4)
+  | _ => .panic
 def bytes (v : V) : R Bytes :=
   match v with
   | .obj "p.IGMPv3GroupRecord" [.num ty, .num aux, .num ns, .bytes mc, .list srcs, .list auxd] => do
@@ -334,8 +337,7 @@ def unmarshal (recv : V) (data : Slice) : R V :=
     let (oldS, oldA) := match recv with
       | .obj _ [_, _, _, _, .list s, .list a] => (s, a)
       | _ => ([], [])
-    let l := Gen.protocol.IGMPv3GroupRecord.Len { Type_ := ty, AuxDataLen := aux, NumberOfSources := ns }
-    if data.len < l.toNat then .err else do
+    if data.len < 8 + aux.toNat * 4 + ns.toNat * 4 then .err else do
       let ips ← pReadIPs data 8 ns.toNat
       let ws ← pReadU32s data (8 + 4 * ns.toNat) aux.toNat
       pure (.obj "p.IGMPv3GroupRecord" [V.u8 ty, V.u8 aux, V.u16 ns, .bytes (makeCopy 4 mc.bytes),
@@ -381,8 +383,8 @@ def readRecs (data : Slice) : Nat → Nat → R (List V)
   | n, k + 1 => do
     let d ← data.fromR n
     let gr ← PIGMPv3GroupRecord.unmarshal PIGMPv3GroupRecord.zero d
-    let l ← PIGMPv3GroupRecord.len gr
-    let rest ← readRecs data (n + l.toNat) k
+    let l ← PIGMPv3GroupRecord.trueSize gr     -- n += 8 + int(gr.AuxDataLen)*4 + int(gr.NumberOfSources)*4
+    let rest ← readRecs data (n + l) k
     pure (gr :: rest)
 def unmarshal (recv : V) (data : Slice) : R V :=
   if data.len < 8 then .err else do
@@ -410,7 +412,8 @@ def bytes (v : V) : R Bytes :=
     fill l.toNat [pU8 ty, pU8 ln, pCopy d]
   | _ => .panic
 def marshalM (v : V) : R (Bytes × V) := do let b ← bytes v; same b v
-def unmarshal (_recv : V) (data : Slice) : R V := do
+def unmarshal (_recv : V) (data : Slice) : R V :=
+  if data.len < 2 then .err else do
   let ty ← data.byteAt 0
   let ln ← data.byteAt 1
   if data.len - 2 < ln.toNat then .err else do
@@ -450,11 +453,12 @@ structure St where
   n : Nat
   opts : List V
 
-def unmarshal (recv : V) (data : Slice) : R V := do
+def unmarshal (recv : V) (data : Slice) : R V :=
+  if data.len < 2 then .err else do
   let nh ← data.byteAt 0
   let hel ← data.byteAt 1
-  -- `len(data) < 8*int(h.HEL+1)` : HEL+1 is computed in uint8 (255 wraps to 0)
-  if data.len < 8 * (hel + 1).toNat then .err else do
+  -- `len(data) < 8*(int(h.HEL)+1)`
+  if data.len < 8 * (hel.toNat + 1) then .err else do
     let old := match recv with
       | .obj _ [_, _, .list o] => o
       | _ => []
@@ -488,10 +492,11 @@ def bytes (v : V) : R Bytes :=
     fill l.toNat [pU8 nh, pU8 hel, pU8 rt, pU8 sl, pCopy c]
   | _ => .panic
 def marshalM (v : V) : R (Bytes × V) := do let b ← bytes v; same b v
-def unmarshal (_recv : V) (data : Slice) : R V := do
+def unmarshal (_recv : V) (data : Slice) : R V :=
+  if data.len < 2 then .err else do
   let nh ← data.byteAt 0
   let hel ← data.byteAt 1
-  if data.len < 8 * (hel + 1).toNat then .err else do
+  if data.len < 8 * (hel.toNat + 1) then .err else do
     let rt ← data.byteAt 2
     let sl ← data.byteAt 3
     let l := Gen.protocol.RoutingHeader.Len { NextHeader := nh, HEL := hel, RoutingType := rt, SegmentsLeft := sl }
@@ -603,6 +608,7 @@ def unmarshal (recv : V) (data : Slice) : R V :=
     let oldOpts := match recv with
       | .obj _ [_, _, _, _, _, _, _, _, _, _, _, _, _, o, _] => o
       | _ => UBuffer.zero
+    if ihl < 5 || ihl.toNat * 4 > data.len then .err else do
     let osl ← data.sliceR 20 (ihl * 4).toNat
     let opts ← UBuffer.unmarshal oldOpts osl
     let n := (ihl * 4).toNat
@@ -797,8 +803,9 @@ def unmarshal (recv : V) (data : Slice) : R V :=
       if et0.toNat = Gen.protocol.VLAN_MSG then do
         let d ← data.fromR 12
         let vl ← PVLAN.unmarshal PVLAN.zero d
-        let et ← data.u16From 16           -- n += int(e.VLANID.Len())
-        pure (vl, et, 18)
+        if data.len < 18 then .err else do   -- n += int(e.VLANID.Len()); if len(data) < n+2
+          let et ← data.u16From 16
+          pure (vl, et, 18)
       else (.ok (PVLAN.zero, et0, 14) : R (V × UInt16 × Nat))
     let rest ← data.fromR n
     let dat ←
@@ -911,6 +918,7 @@ def parseOptions (inp : Slice) : R (List V) := do
       else if inp.len - pos ≥ 1 then do
         let l ← inp.byteAt pos
         let pos := pos + 1
+        if inp.len - pos < l.toNat then .err else do
         let d ← inp.sliceR pos (pos + l.toNat)
         pure { s with pos := pos + l.toNat, opts := s.opts ++ [mk t d.bytes] }
       else pure { s with pos := pos })
@@ -985,6 +993,7 @@ def write (_recv : V) (b : Bytes) : R (V × Nat) :=
     let gip ← data.sliceR 24 28
     let hw ← data.sliceR 28 44
     -- d.ClientHWAddr = clientHWAddr[:d.HardwareLen] on a 16-byte array
+    if hl.toNat > 16 then .err else do
     let hws ← (Slice.exact hw.bytes).uptoR hl.toNat
     let sname ← data.sliceR 44 108
     let file ← data.sliceR 108 236
